@@ -397,6 +397,64 @@ pub fn const_div_constructed<const ND: usize, const LA: usize, const P: usize>(d
     core::mem::forget(cd);
 }
 
+/// ConstDivisor with a literal divisor d; the dividend has LITERAL upper words `up[1..]` and a SYMBOLIC low
+/// word s < 2^sbits. The expected result comes from constants computed outside (q0, r0 = divmod of the
+/// dividend with s = 0): the true quotient is q0 or q0 + 1 depending on whether r0 + s reaches d.
+/// The quotient estimate inside the divider only sees literal words; the symbolic word decides the final
+/// correction step and the length / canonical form of the results.
+pub fn const_div_lowsym<const ND: usize, const LA: usize, const P: usize>(d: [Word; ND], up: [Word; LA], q0: [Word; 2], r0: [Word; ND], which: u8, sbits: u32) {
+    let s: Word = nd::any();
+    if sbits < WB {
+        nd::assume(s < (1 << sbits));
+    }
+    let mut x = up;
+    x[0] = s;
+    // expected (q, r)
+    let mut t = [0 as Word; P]; // P = ND + 1
+    let _ = oracle::add(&r0, &[s], &mut t);
+    let mut dd = [0 as Word; P];
+    let mut i = 0;
+    while i < ND {
+        dd[i] = d[i];
+        i += 1;
+    }
+    let wrap = oracle::cmp(&t, &dd) != Ordering::Less;
+    let mut r = [0 as Word; P];
+    let mut q = [0 as Word; 3];
+    if wrap {
+        let _ = oracle::sub(&t, &dd, &mut r);
+        let _ = oracle::add(&q0, &[1], &mut q);
+    } else {
+        r = t;
+        q[0] = q0[0];
+        q[1] = q0[1];
+    }
+    let cd = ConstDivisor::new(ubig(&d));
+    match which {
+        0 => {
+            let got = ubig(&x) / &cd;
+            assert!(canonical_u(&got) && words_eq(got.as_words(), &q), "wrong quotient through ConstDivisor");
+        }
+        1 => {
+            let got = ubig(&x) % &cd;
+            assert!(canonical_u(&got) && words_eq(got.as_words(), &r), "wrong remainder through ConstDivisor");
+        }
+        2 => {
+            let (gq, gr) = ubig(&x).div_rem(&cd);
+            assert!(canonical_u(&gq) && canonical_u(&gr) && words_eq(gq.as_words(), &q) && words_eq(gr.as_words(), &r), "wrong div_rem through ConstDivisor");
+        }
+        3 => {
+            let got = &ubig(&x) % &cd;
+            assert!(canonical_u(&got) && words_eq(got.as_words(), &r), "wrong remainder (by reference) through ConstDivisor");
+        }
+        _ => {
+            let (gq, gr) = ubig(&x).div_rem(ubig(&d));
+            assert!(canonical_u(&gq) && canonical_u(&gr) && words_eq(gq.as_words(), &q) && words_eq(gr.as_words(), &r), "plain div_rem wrong");
+        }
+    }
+    core::mem::forget(cd);
+}
+
 // ------------------------------------------------------------------ ConstDivisor agrees with plain division
 
 /// divisor concrete (words given), dividend structured: `/ % div_rem` through ConstDivisor == plain operators
@@ -430,3 +488,4 @@ pub fn const_div<const NA: usize, const ND: usize>(d: [Word; ND], which: u8, k: 
     assert!(words_eq(v.as_words(), &d));
     core::mem::forget(cd);
 }
+
